@@ -106,8 +106,8 @@ impl Store {
             if s == slot {
                 self.used[s] = true; self.keys[s] = k;
                 let mut j = 0; while j < KLEN { self.kbytes[s][j] = kb[j]; j += 1; }
-                let mut j = 0; while j < v.len() { self.vals[s][j] = v[j]; j += 1; }
-                self.vlen[s] = v.len();
+                let n = v.len(); self.vals[s][..n].copy_from_slice(v);
+                self.vlen[s] = n;
             }
             s += 1;
         }
@@ -285,7 +285,7 @@ impl<'txn, KC, DC> RwPrefix<'txn, KC, DC> {
         if s.fail_at != 0 && s.writes == s.fail_at { return Err(Error::Mdb(MdbError::MapFull)); }
         match self.c.on() {
             Some(i) if s.keys[i] == k64(&kb) => { if vb.len() > VMAX { return Err(Error::Mdb(MdbError::MapFull)); }
-                let mut t = 0; while t < CAP { if t == i { let mut j = 0; while j < vb.len() { s.vals[t][j] = vb[j]; j += 1; } s.vlen[t] = vb.len(); } t += 1; } Ok(()) }
+                let n = vb.len(); let mut t = 0; while t < CAP { if t == i { s.vals[t][..n].copy_from_slice(&vb); s.vlen[t] = n; } t += 1; } Ok(()) }
             _ => Err(Error::Mdb(MdbError::Other(22))),
         }
     }
